@@ -74,6 +74,9 @@ func genSpec(r *vh.Rng, idx int, thorough bool) scenarioSpec {
 	sp.Senders = []int{1, 4, 16}[idx%3]
 	sp.Script = genScript(r, sp.Mode, thorough)
 	sp.PreMax = 400
+	if !thorough {
+		sp.PreMax = 150
+	}
 	if sp.Mode == "queue" {
 		sp.PreMax = 1500
 		if r.Chance(20) {
@@ -101,7 +104,43 @@ func genSpec(r *vh.Rng, idx int, thorough bool) scenarioSpec {
 		sp.Post = 3
 		sp.PreMax = 40
 	}
+	if sp.Mode == "queue" && len(sp.Script) == 0 && r.Chance(60) {
+		n := 1 + r.Intn(3)
+		for i := 0; i < n; i++ {
+			sp.Reconfig = append(sp.Reconfig, []int{0, 1, 2, 5, 20, 100, 1000}[r.Intn(7)])
+		}
+		if sp.QueueCap == 0 && r.Chance(50) {
+			sp.QueueCap = []int{16, 64, 300}[r.Intn(3)]
+		}
+		sp.Post = 3 + r.Intn(40)
+		sp.Big = 0
+	}
+	if sp.Mode == "direct" && len(sp.Script) > 0 && r.Chance(6) {
+		// all frames larger than the buffered writer: a cut inside a frame hits send(), not Flush()
+		sp.BigAll = (3 + r.Intn(3)) << 20
+		sp.Big = 0
+		sp.Senders = []int{1, 1, 4}[r.Intn(3)]
+		sp.PreMax = 12
+		sp.Post = 10
+		if len(sp.Script) > 2 {
+			sp.Script = sp.Script[:2]
+		}
+		for i := range sp.Script {
+			if sp.Script[i].Frames > 2 {
+				sp.Script[i].Frames = r.Intn(3)
+			}
+			if r.Chance(60) {
+				sp.Script[i].Extra = []int{1, 22, 100000, 1 << 20, 2500000, -1}[r.Intn(6)]
+			}
+		}
+	}
 	sp.Name = fmt.Sprintf("%s/%d senders/%d faults", sp.Mode, sp.Senders, len(sp.Script))
+	if len(sp.Reconfig) > 0 {
+		sp.Name += fmt.Sprintf("/reconfigure %v", sp.Reconfig)
+	}
+	if sp.BigAll > 0 {
+		sp.Name += fmt.Sprintf("/%d MiB frames", sp.BigAll>>20)
+	}
 	return sp
 }
 
@@ -121,7 +160,23 @@ func fixedSpecs(seed uint64) []scenarioSpec {
 		mk("direct", 1, []directive{{Close: true, Frames: 1, Extra: -1}, {Close: true, RefuseBefore: 3, Frames: 0, Extra: 5}}, 5),
 		mk("queue", 4, []directive{{Close: true, Frames: 2, Extra: 1}}, 6),
 		mk("queue", 1, []directive{{Close: true, Frames: 1, Extra: 0}, {RefuseBefore: 1}}, 6),
+		// reconfiguration under a backlog (healthy connection): lower, raise, unbounded, mixed
+		rc(4, 64, 10, []int{4}), rc(4, 8, 10, []int{200}), rc(1, 32, 30, []int{0}), rc(16, 0, 5, []int{2, 100, 0, 1}),
+		// frames larger than the 2 MiB buffered writer, cut inside the frame at several offsets, then >= 10 sends
+		bigc("direct", 1, 3<<20, 0, 1), bigc("direct", 1, 3<<20, 1, 23), bigc("direct", 4, 3<<20, 0, 1<<20),
+		bigc("direct", 1, 5<<20, 1, 2500000), bigc("direct", 1, 3<<20, 2, -1), bigc("queue", 1, 3<<20, 1, 1<<20),
 	}
+}
+
+func rc(senders, cap0, perSender int, caps []int) scenarioSpec {
+	return scenarioSpec{Mode: "queue", Senders: senders, QueueCap: cap0, PreMax: 1500, Post: perSender, Reconfig: caps,
+		Seed: uint64(senders*131 + cap0*7 + perSender + len(caps)), Name: fmt.Sprintf("fixed queue/%d senders/reconfigure %v", senders, caps)}
+}
+
+func bigc(mode string, senders, size, frames, extra int) scenarioSpec {
+	return scenarioSpec{Mode: mode, Senders: senders, BigAll: size, PreMax: 12, Post: 10,
+		Script: []directive{{Close: true, Frames: frames, Extra: extra, Rst: extra%2 == 1}},
+		Seed:   uint64(size + frames*17 + extra), Name: fmt.Sprintf("fixed %s/%d senders/%d MiB frames cut at %d+%d", mode, senders, size>>20, frames, extra)}
 }
 
 type result struct {
@@ -151,7 +206,7 @@ func runAll(specs []scenarioSpec, par int) []result {
 
 func canon(o *observation, an *analysis) string {
 	b, _ := json.Marshal(o.Spec.Script)
-	return fmt.Sprintf("%s|%d|cap%d|big%d|%s|conns%d|delivered%d", o.Spec.Mode, o.Spec.Senders, o.Spec.QueueCap, o.Spec.Big, b, len(o.Conns), len(an.Delivered))
+	return fmt.Sprintf("%s|%d|cap%d|big%d/%d|rc%v|%s|conns%d|delivered%d", o.Spec.Mode, o.Spec.Senders, o.Spec.QueueCap, o.Spec.Big, o.Spec.BigAll, o.Spec.Reconfig, b, len(o.Conns), len(an.Delivered))
 }
 
 func main() {
@@ -166,7 +221,7 @@ func main() {
 		specs, replayD42 = loadReplay(env.Replay)
 	} else {
 		specs = fixedSpecs(env.Seed)
-		n := 20
+		n := 150
 		if env.Thorough {
 			n = 800
 		}
@@ -174,7 +229,7 @@ func main() {
 			specs = append(specs, genSpec(rng, i, env.Thorough))
 		}
 	}
-	par := 64
+	par := 96
 	if raceEnabled {
 		par = 32
 	}
@@ -203,6 +258,12 @@ func main() {
 		rep.Count("mode:" + o.Spec.Mode)
 		rep.Count(fmt.Sprintf("senders:%d", o.Spec.Senders))
 		rep.Count(fmt.Sprintf("faults-carried-out:%d", faults))
+		if len(o.Spec.Reconfig) > 0 {
+			rep.Count("queue-reconfigured-under-backlog")
+		}
+		if o.Spec.BigAll > 0 {
+			rep.Count("all-frames-larger-than-write-buffer")
+		}
 		rep.CountN("sends", len(o.Sends))
 		rep.CountN("frames-received", len(r.an.Delivered))
 		rep.CountN("connections", len(o.Conns))
